@@ -249,7 +249,7 @@ class TAXIICollectionSource(DataSource):
             Filter('version', '=', 'all'),
         ]
 
-        all_data = self.query(query=query, _composite_filters=_composite_filters)
+        all_data = self.query(query=query, version=version, _composite_filters=_composite_filters)
 
         # parse STIX objects from TAXII returned json
         all_data = [parse(stix_obj, allow_custom=self.allow_custom, version=version) for stix_obj in all_data]
